@@ -293,3 +293,35 @@ func (p *Program) chunkAcc() *chunkAccRoles {
 }
 
 func (c *chunkAccRoles) isCountLoad(v ssa.Value) bool { return loadOfField(v, c.count.t, c.count.f) }
+
+// isMessageLogTime: v is a message's log time - loaded from Message.LogTime, or a uint64 parameter of a helper that every
+// static caller feeds with one.
+func isMessageLogTime(p *Program, v ssa.Value) bool {
+	v = stripConv(v)
+	if loadOfField(v, "Message", "LogTime") {
+		return true
+	}
+	prm, ok := v.(*ssa.Parameter)
+	if !ok {
+		return false
+	}
+	if b, ok := prm.Type().Underlying().(*types.Basic); !ok || b.Kind() != types.Uint64 {
+		return false
+	}
+	sites := p.staticCallers(prm.Parent())
+	if len(sites) == 0 {
+		return false
+	}
+	idx := -1
+	for i, q := range prm.Parent().Params {
+		if q == prm {
+			idx = i
+		}
+	}
+	for _, s := range sites {
+		if idx < 0 || idx >= len(s.Common().Args) || !loadOfField(stripConv(s.Common().Args[idx]), "Message", "LogTime") {
+			return false
+		}
+	}
+	return true
+}
